@@ -248,6 +248,8 @@ func (ec *evalCtx) evalIdent(x *ast.Ident) Value {
 						return v
 					}
 				case *types.Var:
+					ec.confine(o, x.Pos(), "read")
+					ec.confine(o, x.Pos(), "read")
 					return ec.e().globalVar(ec.st, o)
 				}
 			}
@@ -269,6 +271,7 @@ func (ec *evalCtx) evalIdent(x *ast.Ident) Value {
 			return v
 		}
 		if o.Parent() == o.Pkg().Scope() {
+			ec.confine(o, x.Pos(), "read")
 			return ec.e().globalVar(ec.st, o)
 		}
 		panic(unsupported("variable %s has no value (captured from an enclosing function?)", x.Name))
@@ -574,6 +577,7 @@ func (ec *evalCtx) evalSelector(x *ast.SelectorExpr) Value {
 		obj := ec.info.Uses[x.Sel]
 		switch o := obj.(type) {
 		case *types.Var:
+			ec.confine(o, x.Pos(), "read")
 			return ec.e().globalVar(ec.st, o)
 		case *types.Func:
 			return &FuncV{Name: o.FullName(), Id: App("fn:"+o.FullName(), SInt)}
@@ -608,6 +612,18 @@ func (ec *evalCtx) specField(base Value, name string, x ast.Expr) Value {
 			}
 		}
 		panic(unsupported("no field %s in %s", name, exprText(x)))
+	case *Term:
+		// a struct kept opaque by the executor: the same named unknown as the code sees (see fieldPath)
+		if b.Op == "var" && ec.fc != nil && ec.fc.c != nil {
+			var ft types.Type
+			func() {
+				defer func() { recover() }()
+				ft = ec.e().typeOfSpecExpr(ec.fc.c, x)
+			}()
+			if ft != nil {
+				return ec.e().freshNamed(ec.st, b.Name+"."+name, ft, 3)
+			}
+		}
 	}
 	panic(unsupported("field %s of %T", name, base))
 }
@@ -632,6 +648,13 @@ func (ec *evalCtx) fieldPath(base Value, sel *types.Selection, x *ast.SelectorEx
 		v = ec.deref(v, x.Pos(), exprText(x))
 		sv, ok := v.(*StructV)
 		if !ok {
+			if tv, isTerm := v.(*Term); isTerm && tv.Op == "var" && !ec.spec {
+				// a struct the executor keeps opaque (library type, deeply nested): reading a field gives the same
+				// unknown value every time (named after the opaque value); such structs are never written field-wise
+				v = ec.e().freshNamed(ec.st, tv.Name+"."+f.Name(), f.Type(), 3)
+				t = f.Type()
+				continue
+			}
 			panic(unsupported("field %s of opaque value (%T) in %s", f.Name(), v, exprText(x)))
 		}
 		fv, ok := sv.F[f.Name()]
@@ -836,6 +859,7 @@ func (ec *evalCtx) lvalue(e ast.Expr) lval {
 		}
 		if v, ok := obj.(*types.Var); ok && v.Pkg() != nil && v.Parent() == v.Pkg().Scope() {
 			return lval{get: func() Value { return ec.e().globalVar(ec.st, v) }, set: func(nv Value) {
+				ec.confine(v, x.Pos(), "write")
 				ec.st.ghost["global:"+v.Pkg().Path()+"."+v.Name()] = nv
 				ec.fc.globalWrites = append(ec.fc.globalWrites, v)
 			}}
@@ -849,6 +873,7 @@ func (ec *evalCtx) lvalue(e ast.Expr) lval {
 				// package-level variable pkg.X
 				if v, ok := ec.info.Uses[x.Sel].(*types.Var); ok {
 					return lval{get: func() Value { return ec.e().globalVar(ec.st, v) }, set: func(nv Value) {
+						ec.confine(v, x.Pos(), "write")
 						ec.st.ghost["global:"+v.Pkg().Path()+"."+v.Name()] = nv
 						ec.fc.globalWrites = append(ec.fc.globalWrites, v)
 					}}
@@ -1162,4 +1187,40 @@ func keyTerm(v Value) *Term {
 		return x.Id
 	}
 	panic(unsupported("map key of kind %T", v))
+}
+
+// confine: property C14 - package-level state that is ever assigned may be touched only while its guard is held
+// (`guarded v by mu` directive); state without a guard must not be touched on the render path at all. Variables that
+// are never assigned after initialisation, and sync.Pool / sync.Mutex values (safe for concurrent use by contract),
+// are exempt.
+func (ec *evalCtx) confine(v *types.Var, pos token.Pos, what string) {
+	if ec.spec || ec.fc == nil || ec.e().prop != "C14" || ec.fc.gen != nil && false {
+		return
+	}
+	if v.Pkg() == nil || !strings.HasPrefix(v.Pkg().Path(), modulePath) && !strings.HasPrefix(v.Pkg().Path(), "verifcorpus") {
+		return // library state is the library's business (documented concurrency contracts are assumed)
+	}
+	if ec.e().neverAssigned(v) {
+		if _, isMap := v.Type().Underlying().(*types.Map); !isMap {
+			return
+		}
+		// a map variable that is never reassigned can still be written through: fall through to the check
+		if !ec.e().mapEverWritten(v) {
+			return
+		}
+	}
+	ts := types.TypeString(v.Type(), nil)
+	if strings.HasPrefix(ts, "sync.") || strings.HasPrefix(ts, "*sync.") || strings.HasPrefix(ts, "*regexp.") {
+		return
+	}
+	key := v.Pkg().Path() + "." + v.Name()
+	if mu, ok := ec.e().cs.Guards[key]; ok {
+		held, _ := ec.st.ghost["lock:"+mu].(*Term)
+		if held == nil {
+			held = False
+		}
+		ec.fc.oblige(ec.st, "confine", held, pos, what+" of package-level "+v.Name()+" requires "+mu+" to be held")
+		return
+	}
+	ec.fc.oblige(ec.st, "confine", False, pos, what+" of package-level variable "+v.Name()+", which is assigned somewhere in the package and has no guard: shared mutable state on the render path")
 }
